@@ -71,4 +71,20 @@ CmpGt(a, b) == IF SameType(a, b) THEN Bool(ElemLt(b, a)) ELSE "AssertionError"
 CmpGe(a, b) == IF SameType(a, b) THEN Bool(ElemLt(b, a) \/ a.v = b.v) ELSE "AssertionError"
 IsDigits(s) == s # <<>> /\ \A i \in DOMAIN s : s[i] \in 48..57
 CanBeInt(a) == a.t = "int" \/ IsDigits(a.v)
+
+\* ---------------------------------------------------------------- files and folders of rankings
+\* (utils.py:90-123) a file is a sequence of lines; a line is a ranking line [k |-> "ranking", r |-> buckets], a
+\* comment line (first character %) or a short line (at most two characters): only ranking lines count, in order.
+\* A backslash at the end of a physical line glues it to the next one: a layout detail of the recorded text, the
+\* abstract file is the same.
+KeptLines(lines) == SelectSeq(lines, LAMBDA l : l.k = "ranking")
+FileDataset(lines) == LET K == KeptLines(lines) IN [j \in DOMAIN K |-> RkOfJson(K[j].r)]
+\* a folder is read file by file in the order of the file names (files carry an integer key that orders their names)
+FolderOrder(files) == SortSeq(files, LAMBDA f, g : f.key < g.key)
+
+\* ---------------------------------------------------------------- DatasetSelector
+\* bounds b = [emin, emax, rmin, rmax]; the selection keeps the order (and the identity) of the datasets
+Fits(D, b) == LET n == Cardinality(Universe(D))  m == Len(D) IN
+              b.emin <= n /\ n <= b.emax /\ b.rmin <= m /\ m <= b.rmax
+SelectedIdx(Ds, b) == SelectSeq([j \in DOMAIN Ds |-> j], LAMBDA j : Fits(Ds[j], b))
 =============================================================================
